@@ -24,51 +24,89 @@ Qed.
 Definition sel (n k : Z) (s0 s1 : bool) (ii : nat) : list Z -> list Z :=
   select_from 0 (part_pred n k s0 s1 (Z.of_nat ii)).
 
-Lemma split_meas_In m n k s0 s1 p :
-  In p (split_meas m n k s0 s1) -> exists ii, p = part_of m (sel n k s0 s1 ii).
+(* the parts when none of them is empty *)
+Definition split_meas_full (m : meas) (n k : Z) (s0 s1 : bool) : list meas :=
+  map (fun ii => part_full m (sel n k s0 s1 ii))
+      (seq 0 (Z.to_nat (num_files n k))).
+
+Lemma split_meas_guard m n k s0 s1 :
+  no_empty_part n k s0 s1 = true ->
+  split_meas m n k s0 s1 = split_meas_full m n k s0 s1.
 Proof.
-  unfold split_meas. intros H. apply in_map_iff in H.
-  destruct H as [ii [<- _]]. now exists ii.
+  unfold no_empty_part, split_meas, split_meas_full. intros H.
+  rewrite forallb_forall in H. apply map_ext_in. intros ii Hii.
+  specialize (H ii Hii). unfold part_of, sel.
+  destruct (Nat.eqb (part_len n _) 0); [discriminate|reflexivity].
 Qed.
 
-Lemma part_key m s : tkey (part_of m s) = tkey m.
+Lemma select_from_length {B C} (p : Z -> bool) :
+  forall (l : list B) (l' : list C) j,
+    length l = length l' ->
+    length (select_from j p l) = length (select_from j p l').
+Proof.
+  induction l as [|x r IH]; intros [|y r'] j H; cbn [length] in H;
+    try discriminate; [reflexivity|].
+  cbn [select_from]. destruct (p j); cbn [length]; auto.
+Qed.
+
+Lemma split_meas_In m n k s0 s1 p :
+  In p (split_meas_full m n k s0 s1) ->
+  exists ii, In ii (seq 0 (Z.to_nat (num_files n k)))
+             /\ p = part_full m (sel n k s0 s1 ii).
+Proof.
+  unfold split_meas_full. intros H. apply in_map_iff in H.
+  destruct H as [ii [<- Hii]]. exists ii. split; [exact Hii|reflexivity].
+Qed.
+
+Lemma part_key m s : tkey (part_full m s) = tkey m.
 Proof. reflexivity. Qed.
 
-Lemma part_acq m s : acq_time8 (part_of m s) = acq_time8 m.
+Lemma part_acq m s : acq_time8 (part_full m s) = acq_time8 m.
 Proof. reflexivity. Qed.
 
 (* all parts carry the same date, time and run index: the (stable) sort
    leaves them in the given order *)
 Lemma sorted_split_id m n k s0 s1 :
-  sorted_gen leb_num (split_meas m n k s0 s1)
-  = tag_from 0 (split_meas m n k s0 s1).
+  sorted_gen leb_num (split_meas_full m n k s0 s1)
+  = tag_from 0 (split_meas_full m n k s0 s1).
 Proof.
   unfold sorted_gen. apply py_sorted_id. apply all_related_sorted.
   intros a b Ha Hb. apply tag_from_In in Ha. apply tag_from_In in Hb.
   apply split_meas_In in Ha. apply split_meas_In in Hb.
-  destruct Ha as [i Ha], Hb as [i' Hb].
+  destruct Ha as [i [_ Ha]], Hb as [i' [_ Hb]].
   unfold tagged_leb, leb_num. rewrite Ha, Hb, !part_key.
   unfold tkey_leb. cbn [fst snd]. lia.
 Qed.
 
 Lemma lookup_col_part f m s :
-  lookup_col f (m_cols (part_of m s)) = option_map s (lookup_col f (m_cols m)).
+  lookup_col f (m_cols (part_full m s)) = option_map s (lookup_col f (m_cols m)).
 Proof.
-  cbn [part_of m_cols].
+  cbn [part_full m_cols].
   induction (m_cols m) as [|[g c] r IH]; cbn [map lookup_col fst snd];
     [reflexivity|].
   destruct (f =? g); [reflexivity|exact IH].
 Qed.
 
-Lemma wf_part m s : wf_meas m -> wf_meas (part_of m s).
+Lemma wf_part m n k s0 s1 ii :
+  wf_meas m ->
+  (forall f c, lookup_col f (m_cols m) = Some c -> Z.of_nat (length c) = n) ->
+  part_len n (sel n k s0 s1 ii) <> 0%nat ->
+  wf_meas (part_full m (sel n k s0 s1 ii)).
 Proof.
-  unfold wf_meas. intros [H1 [H2 [H3 [H4 H5]]]].
-  cbn [part_of m_innate m_avail m_rate]. repeat split; auto.
-  intros f Hf. rewrite lookup_col_part. specialize (H3 f Hf).
-  destruct (lookup_col f (m_cols m)); [discriminate|contradiction].
+  unfold wf_meas. intros [H1 [H2 [H3 [H4 [H5 H6]]]]] Hlen Hpl.
+  cbn [part_full m_innate m_avail m_rate]. repeat split; auto.
+  - intros f Hf. rewrite lookup_col_part. specialize (H3 f Hf).
+    destruct (lookup_col f (m_cols m)); [discriminate|contradiction].
+  - intros f Hf. rewrite lookup_col_part in Hf.
+    destruct (lookup_col f (m_cols m)) as [c|] eqn:El; [|discriminate].
+    cbn [option_map] in Hf. injection Hf as Hf.
+    apply Hpl. unfold part_len, sel in *.
+    rewrite (select_from_length _ (repeat 0 (Z.to_nat n)) c 0).
+    + now rewrite Hf.
+    + rewrite repeat_length. specialize (Hlen f c El). lia.
 Qed.
 
-Lemma getcol_part f m s : s [] = [] -> getcol f (part_of m s) = s (getcol f m).
+Lemma getcol_part f m s : s [] = [] -> getcol f (part_full m s) = s (getcol f m).
 Proof.
   intros Hs. unfold getcol. rewrite lookup_col_part.
   destruct (lookup_col f (m_cols m)); cbn [option_map]; auto.
@@ -78,16 +116,16 @@ Qed.
    work on every feature *)
 Lemma cols_of_parts f m n k s0 s1 c :
   lookup_col f (m_cols m) = Some c -> Z.of_nat (length c) = n ->
-  map (getcol f) (split_meas m n k s0 s1) = split_parts c k s0 s1.
+  map (getcol f) (split_meas_full m n k s0 s1) = split_parts c k s0 s1.
 Proof.
-  intros Hl Hn. unfold split_meas, split_parts. rewrite map_map, Hn.
+  intros Hl Hn. unfold split_meas_full, split_parts. rewrite map_map, Hn.
   assert (Hg : getcol f m = c) by (unfold getcol; now rewrite Hl).
   apply map_ext. intros ii. rewrite getcol_part; [now rewrite Hg|reflexivity].
 Qed.
 
 Lemma spec_plain_split f m n k s0 s1 c :
   0 < k -> lookup_col f (m_cols m) = Some c -> Z.of_nat (length c) = n ->
-  spec_plain f (split_meas m n k s0 s1) = slice c (b2z s0) (n - b2z s1).
+  spec_plain f (split_meas_full m n k s0 s1) = slice c (b2z s0) (n - b2z s1).
 Proof.
   intros Hk Hl Hn. unfold spec_plain.
   rewrite (cols_of_parts f m n k s0 s1 c Hl Hn).
@@ -96,9 +134,9 @@ Qed.
 
 (* more events than the split size: at least two parts (join needs two) *)
 Lemma split_meas_two m n k s0 s1 :
-  0 < k -> k < n -> (2 <= length (split_meas m n k s0 s1))%nat.
+  0 < k -> k < n -> (2 <= length (split_meas_full m n k s0 s1))%nat.
 Proof.
-  intros Hk Hn. unfold split_meas. rewrite map_length, seq_length.
+  intros Hk Hn. unfold split_meas_full. rewrite map_length, seq_length.
   destruct (num_files_covers n k) as [H0 [H1 _]]; [lia|lia|].
   assert (2 <= num_files n k) by nia. lia.
 Qed.
@@ -121,6 +159,7 @@ Qed.
 Theorem join_of_split m n k s0 s1 :
   0 < k -> k < n -> wf_meas m ->
   (forall f c, lookup_col f (m_cols m) = Some c -> Z.of_nat (length c) = n) ->
+  no_empty_part n k s0 s1 = true ->
   exists j,
     join_fixed (split_meas m n k s0 s1) = Ok j
     /\ j_feats j = py_sorted Z.leb (m_innate m)
@@ -134,32 +173,37 @@ Theorem join_of_split m n k s0 s1 :
              lookup_col f (j_cols j)
              = Some (spec_ido_blocks (split_parts c k s0 s1))).
 Proof.
-  intros Hk Hn Hwf Hlen.
-  set (parts := split_meas m n k s0 s1).
+  intros Hk Hn Hwf Hlen Hguard.
+  rewrite (split_meas_guard m n k s0 s1 Hguard).
+  set (parts := split_meas_full m n k s0 s1).
   assert (Hparts : forall p, In p parts ->
-                             exists ii, p = part_of m (sel n k s0 s1 ii))
+                             exists ii, In ii (seq 0 (Z.to_nat (num_files n k)))
+                                        /\ p = part_full m (sel n k s0 s1 ii))
     by (intros p Hp; now apply split_meas_In).
   assert (Hwfp : Forall wf_meas parts).
-  { apply Forall_forall. intros p Hp. destruct (Hparts p Hp) as [ii ->].
-    now apply wf_part. }
+  { apply Forall_forall. intros p Hp. destruct (Hparts p Hp) as [ii [Hii ->]].
+    apply wf_part; auto. unfold no_empty_part in Hguard.
+    rewrite forallb_forall in Hguard. specialize (Hguard ii Hii).
+    unfold sel. intros E. rewrite E in Hguard. discriminate. }
   destruct (join_fixed_total parts (split_meas_two m n k s0 s1 Hk Hn) Hwfp)
     as [j Hj].
   exists j. split; [exact Hj|].
   assert (Hsorted : map snd (sorted_gen leb_num parts) = parts).
   { unfold parts. rewrite sorted_split_id. apply tag_from_snd. }
-  destruct Hwf as [Hnd [Hia [Hcols [Hrate Hdt]]]].
+  destruct Hwf as [Hnd [Hia [Hcols [Hrate [Hdt Hne]]]]].
   (* features *)
   destruct (join_features_common _ _ Hj) as [m0 [rest [Hs Hf]]].
   rewrite Hsorted in Hs.
-  assert (Hm0 : exists ii, m0 = part_of m (sel n k s0 s1 ii))
+  assert (Hm0 : exists ii, In ii (seq 0 (Z.to_nat (num_files n k)))
+                           /\ m0 = part_full m (sel n k s0 s1 ii))
     by (apply Hparts; rewrite Hs; now left).
-  destruct Hm0 as [i0 Hm0].
+  destruct Hm0 as [i0 [_ Hm0]].
   assert (Hfeats : j_feats j = py_sorted Z.leb (m_innate m)).
   { rewrite Hf by (rewrite Hm0; exact Hnd).
-    unfold spec_features. rewrite Hm0. cbn [part_of m_innate].
+    unfold spec_features. rewrite Hm0. cbn [part_full m_innate].
     apply filter_id. intros f Hfin. apply forallb_forall. intros p Hp.
-    destruct (Hparts p) as [ii ->]; [rewrite Hs; now right|].
-    cbn [part_of m_avail]. apply mem_Z_In. apply Hia.
+    destruct (Hparts p) as [ii [_ ->]]; [rewrite Hs; now right|].
+    cbn [part_full m_avail]. apply mem_Z_In. apply Hia.
     eapply Permutation_in; [apply py_sorted_perm|exact Hfin]. }
   split; [exact Hfeats|].
   (* columns *)
@@ -172,7 +216,7 @@ Proof.
   assert (Hplain : spec_plain f (m0 :: rest) = kept).
   { rewrite <- Hs. apply spec_plain_split; auto. eapply Hlen; eauto. }
   assert (Hacq : forall p, In p (m0 :: rest) -> acq_time8 p = acq_time8 m0).
-  { intros p Hp. rewrite <- Hs in Hp. destruct (Hparts p Hp) as [ii ->].
+  { intros p Hp. rewrite <- Hs in Hp. destruct (Hparts p Hp) as [ii [_ ->]].
     rewrite Hm0. now rewrite !part_acq. }
   split; [|split].
   - intros H3 H4.
@@ -216,7 +260,32 @@ Proof. split; [apply wf_measb_sound|]; vm_compute; reflexivity. Qed.
 
 (* first and last event skipped: 5 events, parts [1] [2;3] (the last part
    would be empty: the real split fails there, finding C09-split-empty-part) *)
-Example join_of_split_skip_ex :
-  exists j, join_fixed (split_meas m_ex 5 2 true true) = Ok j
-            /\ lookup_col 10 (j_cols j) = Some [8; 9; 10].
-Proof. eexists. split; vm_compute; reflexivity. Qed.
+(* Without the guard the statement is false of the code (finding
+   C09-split-empty-part): the event-less first part is the earliest input, it
+   has no features, so the joined file has none ... *)
+Theorem join_of_split_refuted :
+  exists m n k s0 s1,
+    0 < k /\ k < n /\ wf_meas m
+    /\ (forall f c, lookup_col f (m_cols m) = Some c -> Z.of_nat (length c) = n)
+    /\ no_empty_part n k s0 s1 = false
+    /\ exists j, join_fixed (split_meas m n k s0 s1) = Ok j
+                 /\ j_feats j = [] /\ j_count j = 0.
+Proof.
+  exists m_ex, 5, 1, true, false.
+  split; [lia|]. split; [lia|]. split; [apply wf_measb_sound; vm_compute; reflexivity|].
+  split.
+  - intros f c. unfold m_ex, mk_meas. cbn [m_cols lookup_col].
+    repeat (match goal with
+            | |- context [if ?b then _ else _] => destruct b
+            end; [intros [= <-]; reflexivity|]).
+    discriminate.
+  - split; [vm_compute; reflexivity|].
+    eexists. split; [vm_compute; reflexivity|]. split; reflexivity.
+Qed.
+
+(* ... and when the event-less part comes last and "index" is stored, join
+   raises ValueError (writing an empty "index" block) *)
+Theorem join_of_split_refuted_error :
+  join_fixed (split_meas m_ex 5 2 false true) = Err EValue
+  /\ no_empty_part 5 2 false true = false.
+Proof. split; vm_compute; reflexivity. Qed.
